@@ -3200,6 +3200,9 @@ class Translator:
         self.consts = {}
         self.order = []
         self.inout = {}
+        self.emitted = {}
+        self.discovered = set()      # helpers translated on demand: if one is outside the subset only its callers fail
+        self.helper_failed = {}
         # methods that call an injected function (directly or not): the log of those calls is threaded through them
         self.io_methods = {q.split(".")[-1] for rel, names in config["groups"] for q, c in names.items() if c.get("io")}
         self.failed = {}
@@ -3213,14 +3216,71 @@ class Translator:
         for m in re.finditer(r"^def ([A-Z][A-Z0-9_]*) : (List Int|Int)", open(path).read(), re.M):
             self.consts[m.group(1)] = ("slice", ("i64",)) if m.group(2) == "List Int" else ("i64",)
 
+    def discover(self, funcs, q, configured, stack):
+        """unlisted functions of the same file called (transitively) by q, callees first"""
+        if q not in funcs or funcs[q][0] == "ERROR" or q in stack:
+            return []
+        owner = q.split(".")[0] if "." in q else None
+        found = []
+
+        special = set(EXTERN_FNS) | set(CALL_ALIASES) | {"parse_int", "read_chunk_exact"} | {"%s.%s" % k for k in EXTERN_METHODS}
+
+        def cand(name):
+            if "." in name and name.split(".")[0] in STRUCTS and name.split(".")[1] in STRUCTS[name.split(".")[0]]:
+                return      # an accessor: the field
+            if name in funcs and name not in configured and name not in special and name != q and funcs[name][0] != "ERROR":
+                for d in self.discover(funcs, name, configured, stack + [q]):
+                    if d not in found:
+                        found.append(d)
+                if name not in found:
+                    found.append(name)
+
+        def walk(node):
+            if isinstance(node, list):
+                for x in node:
+                    walk(x)
+                return
+            if not isinstance(node, tuple) or not node:
+                return
+            if node[0] == "call" and node[1][0] in ("path", "tpath"):
+                path = node[1][1]
+                if len(path) == 1:
+                    cand(path[0])
+                elif len(path) >= 2:
+                    head = owner if path[-2] == "Self" else path[-2]
+                    cand("%s.%s" % (head, path[-1]))
+            if node[0] == "mcall":
+                name = node[2]
+                if node[1] == ("path", ["self"]) and owner:
+                    cand("%s.%s" % (owner, name))
+                else:
+                    ks = [k for k in funcs if k.endswith("." + name) and k not in configured and funcs[k][0] != "ERROR"]
+                    if len(ks) == 1:
+                        cand(ks[0])
+            for x in node[1:]:
+                if isinstance(x, (tuple, list)):
+                    walk(x)
+
+        walk(funcs[q][2])
+        return found
+
     def run(self):
         self.load_consts()
+        configured = {q for rel, names in self.config["groups"] for q in names}
         parsed = {}
         for rel, names in self.config["groups"]:
             if rel not in parsed:
                 parsed[rel] = parse_file(os.path.join(REPO, rel))
             funcs, _ = parsed[rel]
             for q, cfg in names.items():
+                # private helpers of the same file that a listed function calls (extracted by a refactor, say) are
+                # translated on demand, before their caller
+                for h in self.discover(funcs, q, configured, []):
+                    if h not in self.funcs:
+                        fh = funcs[h] if len(funcs[h]) == 4 else funcs[h] + ([],)
+                        self.funcs[h] = (rel,) + fh + ({},)
+                        self.order.append(h)
+                        self.discovered.add(h)
                 if q not in funcs:
                     self.failed[q] = "%s: function %s not found" % (rel, q)
                     continue
@@ -3236,7 +3296,7 @@ class Translator:
             try:
                 f = Fn(self, q, params, ret, body, cfg, generics)
             except Exception as e:
-                self.failed[q] = "%s: %s: %s" % (rel, q, e)
+                (self.helper_failed if q in self.discovered else self.failed)[q] = "%s: %s: %s" % (rel, q, e)
                 self.order.remove(q)
                 continue
             ps = [(n, f.resolve(t)) for n, t in params]
@@ -3284,11 +3344,12 @@ class Translator:
                     rty = lean_ty(f.ret)
             except Exception as e:
                 # fail closed per function: it is not emitted, nor is anything that calls it
-                self.failed[q] = "%s: %s: %s" % (rel, q, e)
+                (self.helper_failed if q in self.discovered else self.failed)[q] = "%s: %s: %s" % (rel, q, e)
                 self.order.remove(q)
                 del self.sigs[q]
                 continue
             out.append("-- %s `%s`\ndef %s %s: %s :=\n%s\n" % (rel, q.replace(".", "::"), q, "".join(b + " " for b in binders), rty, indent(text)))
+            self.emitted[q] = {"binders": len(binders), "text": text}
         return out
 
 
@@ -3378,6 +3439,50 @@ CONFIG = {
 }
 
 
+STABLE_TACTIC = """
+open Lean Elab Tactic Meta in
+/-- replace every matcher application in the goal by its definition (`casesOn` with the alternatives), beta-reduced:
+the two translations have their own (identical) auxiliary matchers, and comparing them must not need evaluation -/
+elab "delta_matchers" : tactic => do
+  let g ← getMainGoal
+  let t ← instantiateMVars (← g.getType)
+  let env ← getEnv
+  let names := t.foldConsts (#[] : Array Name) fun c acc =>
+    if Lean.Meta.isMatcherCore env c && !acc.contains c then acc.push c else acc
+  if names.isEmpty then
+    return
+  let t' ← Lean.Meta.deltaExpand t (fun n => names.contains n)
+  let t'' ← Core.betaReduce t'
+  let g' ← g.replaceTargetDefEq t''
+  replaceMainGoal [g']
+
+/-- restructured control flow: case analysis on both sides, each case by syntactic equality, arithmetic or rewriting.
+Everything here is a kernel-checked proof or fails. -/
+macro "src_portfolio" : tactic => `(tactic|
+  first
+    | with_reducible rfl
+    | ((repeat' split) <;> first | with_reducible rfl | omega | (simp_all; done) | grind))
+"""
+
+
+def now_text(text, names):
+    """references to translated functions: Src.f -> SrcNow.f (the prelude stays TzVerif.Src)"""
+    for n in sorted(names, key=len, reverse=True):
+        text = re.sub(r"(?<![\w.])Src\." + re.escape(n) + r"(?![\w'])", "SrcNow." + n, text)
+    return text
+
+
+def file_stem(q):
+    return re.sub(r"[^A-Za-z0-9]", "_", q)
+
+
+def write_if_changed(path, text):
+    old = open(path).read() if os.path.exists(path) else None
+    if old != text:
+        os.makedirs(os.path.dirname(path), exist_ok=True)
+        open(path, "w").write(text)
+
+
 def main():
     tr = Translator(CONFIG)
     try:
@@ -3387,15 +3492,89 @@ def main():
         defs = []
         tr.failed["*"] = "internal: %s: %s" % (type(e).__name__, e)
         tr.order = []
+        tr.emitted = {}
+    names = list(tr.emitted)
     fails = "".join("-- NOT TRANSLATED %s\n" % str(v).replace("\n", " ") for v in tr.failed.values())
     text = ("-- GENERATED by tools/rs2lean.py from /repo/src on every run. Do not edit.\n"
-            "-- One Lean definition per listed Rust function, translated statement by statement.\n" + fails +
-            "import TzVerif.SrcPrelude\nimport TzVerif.SrcPreludeStr\nimport TzVerif.SrcPreludeIo\nimport TzVerif.Model.TzFile\nimport TzVerif.Model.Find\n\nset_option linter.unusedVariables false\n\nnamespace TzVerif.Src\nopen TzVerif\n\n" + "\n".join(defs) + "\nend TzVerif.Src\n")
-    path = os.path.join(OUT, "Src.lean")
-    old = open(path).read() if os.path.exists(path) else None
-    if old != text:
-        open(path, "w").write(text)
-    json.dump({"ok": not tr.failed, "functions": tr.order, "not_translated": tr.failed}, open(os.path.join(OUT, "src_report.json"), "w"), indent=1)
+            "-- One Lean definition per listed Rust function, translated statement by statement (namespace TzVerif.SrcNow;\n"
+            "-- Generated/Stable/*.lean prove each equal to the committed baseline TzVerif.Src of SrcBase.lean).\n" + fails +
+            "import TzVerif.SrcPrelude\nimport TzVerif.SrcPreludeStr\nimport TzVerif.SrcPreludeIo\nimport TzVerif.Model.TzFile\nimport TzVerif.Model.Find\n\nset_option linter.unusedVariables false\n\nnamespace TzVerif.SrcNow\nopen TzVerif\n\n"
+            + now_text("\n".join(defs), names) + "\nend TzVerif.SrcNow\n")
+    write_if_changed(os.path.join(OUT, "Src.lean"), text)
+    # ---- stability: the current translation equals the baseline, function by function
+    base_path = os.path.join(os.path.dirname(OUT), "SrcBase.lean")
+    base = open(base_path).read() if os.path.exists(base_path) else ""
+    base_names = re.findall(r"^def (\S+) ", base, re.M)
+    write_if_changed(os.path.join(OUT, "StableTactic.lean"),
+                     "-- GENERATED by tools/rs2lean.py. Do not edit.\nimport Lean\nimport TzVerif.Generated.Src\nimport TzVerif.SrcBase\n" + STABLE_TACTIC)
+    stable_dir = os.path.join(OUT, "Stable")
+    os.makedirs(stable_dir, exist_ok=True)
+    wanted = set()
+    callees = {}
+    for q in base_names:
+        stem = file_stem(q)
+        wanted.add(stem + ".lean")
+        body = now_text(tr.emitted[q]["text"], names) if q in tr.emitted else ""
+        # private helpers the baseline does not have (transitively), and then the baseline functions called by any of them
+        helpers, grew = [], True
+        text_all = body
+        while grew:
+            grew = False
+            for n in names:
+                if n not in base_names and n not in helpers and re.search(r"(?<![\w.])SrcNow\." + re.escape(n) + r"(?![\w'])", text_all):
+                    helpers.append(n)
+                    text_all += "\n" + now_text(tr.emitted[n]["text"], names)
+                    grew = True
+        cs = [n for n in base_names if n != q and re.search(r"(?<![\w.])SrcNow\." + re.escape(n) + r"(?![\w'])", text_all)]
+        callees[q] = cs
+        imports = "".join("import TzVerif.Generated.Stable.%s\n" % file_stem(c) for c in cs)
+        lemmas = ", ".join("TzVerif.Stable.%s.stable" % c for c in cs)
+        if q in tr.emitted:
+            xs = " ".join("x%d" % i for i in range(tr.emitted[q]["binders"]))
+            proof = ("theorem stable : @SrcNow.%s = @Src.%s := by\n" % (q, q)
+                     + ("  funext %s\n" % xs if xs else "")
+                     + "  unfold SrcNow.%s Src.%s\n" % (q, q)
+                     # functions of the current translation that the baseline does not have (extracted private helpers)
+                     + ("  (try simp only [%s])\n" % ", ".join("SrcNow.%s" % n for n in helpers) if helpers else "")
+                     # callees: rewritten to the baseline's, so that nothing below them has to be unfolded
+                     + "".join("  (try rw [TzVerif.Stable.%s.stable])\n" % c for c in cs)
+                     + "  all_goals (\n    delta_matchers\n    first\n"
+                     + "      | with_reducible rfl\n"                                                   # identical text
+                     + "      | ((try simp only []); (try delta_matchers); with_reducible rfl)\n"      # lets renamed / reordered / inlined
+                     + "      | src_portfolio)\n")
+        else:
+            proof = ("-- the function is no longer inside the translated subset: nothing ties it to the baseline\n"
+                     "theorem stable : @SrcNow.%s = @Src.%s := by\n  rfl\n" % (q, q))
+        write_if_changed(os.path.join(stable_dir, stem + ".lean"),
+                         "-- GENERATED by tools/rs2lean.py on every run. Do not edit.\nimport TzVerif.Generated.StableTactic\n" + imports +
+                         "\nnamespace TzVerif.Stable.%s\nopen TzVerif\n\n%send TzVerif.Stable.%s\n" % (q, proof, q))
+    for f in os.listdir(stable_dir):
+        if f.endswith(".lean") and f not in wanted:
+            os.remove(os.path.join(stable_dir, f))
+    # per property: the stability theorems of the translated functions its Properties file mentions (their callees come
+    # with them through the imports)
+    props_dir = os.path.join(os.path.dirname(OUT), "Properties")
+    stable_index = {}
+    for pf in sorted(os.listdir(props_dir)) if os.path.isdir(props_dir) else []:
+        m = re.match(r"(C\d\d)\.lean$", pf)
+        if not m:
+            continue
+        ptext = open(os.path.join(props_dir, pf)).read()
+        used = [n for n in base_names if re.search(r"(?<![\w])Src\." + re.escape(n) + r"(?![\w'.])", ptext)]
+        # closure over callees, for the audit list
+        closure, todo = [], list(used)
+        while todo:
+            n = todo.pop()
+            if n not in closure:
+                closure.append(n)
+                todo.extend(callees.get(n, []))
+        stable_index[m.group(1)] = sorted("TzVerif.Stable.%s.stable" % n for n in closure)
+        write_if_changed(os.path.join(OUT, "Stable%s.lean" % m.group(1)),
+                         "-- GENERATED by tools/rs2lean.py on every run. Do not edit.\n-- the current translation of every function Properties/%s mentions equals the baseline\n" % pf +
+                         "import TzVerif.Generated.StableTactic\n" + "".join("import TzVerif.Generated.Stable.%s\n" % file_stem(n) for n in used))
+    json.dump({"ok": not tr.failed, "functions": tr.order, "not_translated": tr.failed, "helpers": sorted(tr.discovered & set(tr.emitted)),
+               "helpers_not_translated": tr.helper_failed, "stable": stable_index},
+              open(os.path.join(OUT, "src_report.json"), "w"), indent=1)
     for v in tr.failed.values():
         sys.stderr.write("rs2lean: %s\n" % v)
     print("rs2lean: %d functions translated%s" % (len(defs), (", %d NOT translated" % len(tr.failed)) if tr.failed else ""))
